@@ -43,7 +43,7 @@ TOK = re.compile(r"""
   | (?P<str>"(?:[^"\\]|\\.)*")
   | (?P<int>\d[\d_]*(?:usize|u64|u32|u16)?)
   | (?P<id>[A-Za-z_][A-Za-z0-9_]*)
-  | (?P<op>=>|->|::|&&|\|\||==|!=|<=|>=|\.\.=|\.\.|[-+*/%&|!<>=(){}\[\],;.:?\#'])
+  | (?P<op>=>|->|::|&&|\|\||==|!=|<=|>=|\.\.=|\.\.|[-+*/%&|!<>=(){}\[\],;.:?\#'^~@$])
 """, re.X | re.S)
 
 
